@@ -6,6 +6,8 @@ import (
 	"crypto/rand"
 	"crypto/sha256"
 	"crypto/x509"
+	"crypto/x509/pkix"
+	encasn1 "encoding/asn1"
 	"math/big"
 	"time"
 
@@ -97,9 +99,17 @@ func VC04_VerifySound() {
 		fsig := vsym.BytesN(names[i]+".sig", 256)
 		vsym.Assume(!bytes.Equal(fsig, hsi.EncryptedDigest)) // a free signature is not the honest one (that is the other choice)
 		sig := vSel(vsym.Bool(names[i]+".sig.honest"), hsi.EncryptedDigest, fsig)
+		// the digest algorithm label of the entry is outside the signed attributes: the adversary
+		// may relabel it (SHA-256 or SHA-384), as the parser would hand it over
+		alg := OIDDigestAlgorithmSHA256
+		if vsym.Bool(names[i] + ".alg.relabelled") {
+			alg = encasn1.ObjectIdentifier{2, 16, 840, 1, 101, 3, 4, 2, 2}
+		}
 		si := &signerinfo{
-			Version:               1,
-			IssuerAndSerialnumber: &issuerAndSerialNumber{RawIssuer: iss, SerialNumber: vBig(ser)},
+			Version:                  1,
+			DigestAlgorithm:          &pkix.AlgorithmIdentifier{Algorithm: alg},
+			EncryptedDigestAlgorithm: &pkix.AlgorithmIdentifier{Algorithm: encasn1.ObjectIdentifier{1, 2, 840, 113549, 1, 1, 1}},
+			IssuerAndSerialnumber:    &issuerAndSerialNumber{RawIssuer: iss, SerialNumber: vBig(ser)},
 			AuthenticatedAttributes: &Attributes{
 				ContentType:   vOIDs[1-vsym.Pick(names[i]+".ctype", 2)].oid,
 				MessageDigest: md,
@@ -162,5 +172,35 @@ func VC04_AttributeBytes() {
 	ok, _ := p.Verify(cert)
 	same := ps == pb
 	vsym.Assert(ok == same, "verification succeeds exactly when the attribute bytes in the blob are the bytes that were signed")
+	vsym.Reach("end")
+}
+
+// VC04_ParsedBlobBinding: a DER blob in the third-party producer language (pkcs7-data with the
+// content attached as an OCTET STRING) whose attached content is not the content that was digested
+// and signed: parsing may succeed, verification against the signer's certificate must not.
+func VC04_ParsedBlobBinding() {
+	signer := vsym.Signer("k1")
+	serial := vsym.BytesN("serial", 2)
+	vsym.Assume(serial[0] != 0)
+	cert := vsym.Cert(signer, serial)
+	content := vsym.BytesN("content", 4)
+	other := vsym.BytesN("other", 4)
+	vsym.Assume(!bytes.Equal(content, other))
+	outer, nullParams := vsym.Bool("outer"), vsym.Bool("null")
+	honest, _ := vThirdPartyBlob(signer, cert.Raw, cert.RawIssuer, serial, content, time.Now().UTC(), nil, nil, outer, nullParams, true)
+	hp, err := ParsePKCS7(honest)
+	vsym.Assert(err == nil, "the honest blob parses")
+	okh, _ := hp.Verify(cert)
+	vsym.Assert(okh, "the honest blob with attached content verifies")
+	vEmbedded = other
+	forged, _ := vThirdPartyBlob(signer, cert.Raw, cert.RawIssuer, serial, content, time.Now().UTC(), nil, nil, outer, nullParams, true)
+	vEmbedded = nil
+	fp, err := ParsePKCS7(forged)
+	if err != nil {
+		vsym.Reach("rejected-by-parser")
+		return
+	}
+	okf, _ := fp.Verify(cert)
+	vsym.Assert(!okf, "a blob whose attached content is not the signed content does not verify")
 	vsym.Reach("end")
 }
